@@ -73,6 +73,23 @@ Theorem C19_windows_at_most_one_interval : forall c evs s js s',
 Proof. exact windows_at_most_one_interval. Qed.
 Print Assumptions C19_windows_at_most_one_interval.
 
+(* ... and that hypothesis follows from "tick gaps shorter than the interval" ([regular]: every tick's reset reading
+   comes less than one interval after the previous tick's decision reading, Stop less than one interval after the
+   last decision reading): a whole session Start; ticks; Stop with regular ticks has windows of at most one interval *)
+Theorem C19_regular_ticks_timely : forall c ticks ts prev s,
+  0 < sc_interval c -> regular (sc_interval c) prev ticks ts ->
+  ss_stopped s = false -> prev < trunc (sc_interval c) (ss_start s) + sc_interval c ->
+  timely c (ticks_events ticks ++ [SStop ts]) s.
+Proof. exact regular_ticks_timely. Qed.
+Print Assumptions C19_regular_ticks_timely.
+
+Theorem C19_regular_session_windows : forall c t0 ticks ts js s',
+  0 < sc_interval c -> regular (sc_interval c) t0 ticks ts ->
+  s_run c (SStart t0 :: ticks_events ticks ++ [SStop ts]) (s_init c) = (js, s') ->
+  Forall (fun j => uj_end j - uj_start j <= sc_interval c) js.
+Proof. exact regular_session_windows. Qed.
+Print Assumptions C19_regular_session_windows.
+
 Example C19_nonvacuous :
   let '(js, s') := s_run ex_scfg (SStart 3 :: ex_sevs) (s_init ex_scfg) in
   map (fun j => (uj_start j, uj_end j, uj_data j)) js =
